@@ -61,6 +61,9 @@ type c04call struct {
 	pad       string
 	done      bool
 	rich      int // -1 none, else a richFields recipe
+	// postlude: run on the root after the tasks, with the switched branches
+	// turned off between Check and Write
+	postlude bool
 }
 
 type c04task struct {
@@ -155,6 +158,9 @@ func c04wrap(l *zap.Logger) *taskLogger {
 	return tl
 }
 
+// c04afterCheck, when set, runs between Check and Write of a Check/Write call.
+var c04afterCheck func()
+
 func c04do(tl *taskLogger, c *c04call) {
 	msg := c.msg
 	fields := []zap.Field{zap.Int("t", c.task), zap.Int("s", c.seq), zap.String("pad", c.pad)}
@@ -177,6 +183,9 @@ func c04do(tl *taskLogger, c *c04call) {
 		tl.l.Log(c.lvl, msg, fields...)
 	case feCheck:
 		if ce := tl.l.Check(c.lvl, msg); ce != nil {
+			if c04afterCheck != nil {
+				c04afterCheck() // (postlude calls only: see there)
+			}
 			if c.seq%3 == 2 {
 				// with an after-write hook that returns (an audit hook, say)
 				ce = ce.After(ce.Entry, c06quiet{})
@@ -333,7 +342,7 @@ func runC04(c *Ctx) {
 	var tickers []*zapcore.BufferedWriteSyncer
 	bufSize := 0
 	unjudged := map[*zsim.SimSink]bool{}
-	var switchOn []func()
+	var switchOn, switchOff []func()
 	for b := 0; b < nBranch; b++ {
 		br := &c04branch{level: stdLevels[g.Weighted(4, 2, 2, 1)], console: g.Chance(4), kind: g.Draw(7), shares: -1}
 		if br.kind == 5 || br.kind == 6 {
@@ -418,6 +427,7 @@ func runC04(c *Ctx) {
 			lvl := br.level
 			enab = al
 			switchOn = append(switchOn, func() { al.SetLevel(lvl) })
+			switchOff = append(switchOff, func() { al.SetLevel(zapcore.InvalidLevel) })
 			r.Probe("branch whose level is switched on after construction")
 		}
 		br.core = zapcore.NewCore(newEncoderCaller(br.console, withCaller), br.ws, enab)
@@ -528,6 +538,15 @@ func runC04(c *Ctx) {
 				r.Probe("Check/Write with a returning after-hook")
 			}
 		}
+		if len(switchOff) > 0 && g.Chance(2) {
+			// postlude (run on the root when the tasks are done): a checked entry
+			// whose branch is switched off between Check and Write - it was
+			// accepted, so its line is written all the same
+			call := &c04call{task: t, seq: n, lvl: zapcore.ErrorLevel, front: feCheck, rich: -1, postlude: true}
+			call.msg = fmt.Sprintf("t%d.s%d:", t, n)
+			tk.calls = append(tk.calls, call)
+			r.Probe("branch switched off between Check and Write")
+		}
 		tasks = append(tasks, tk)
 	}
 	syncTask := g.Chance(3)
@@ -572,6 +591,9 @@ func runC04(c *Ctx) {
 				tl = c04derive(bases[tk.fork], tk.variant, t)
 			}
 			for _, call := range tk.calls {
+				if call.postlude {
+					continue
+				}
 				c04do(tl, call)
 				call.done = true
 				zsim.Yield(zsim.KOp, nil)
@@ -624,6 +646,32 @@ func runC04(c *Ctx) {
 	}
 	c.Nontrivial = true
 	c.Sim()
+
+	// ---- postlude ----
+	for t, tk := range tasks {
+		for _, call := range tk.calls {
+			if !call.postlude || r.Failed() {
+				continue
+			}
+			var tl *taskLogger
+			if shared {
+				tl = sharedTL[tk.fork*16+tk.variant].perTask()
+			} else {
+				tl = c04derive(bases[tk.fork], tk.variant, t)
+			}
+			c04afterCheck = func() {
+				for _, f := range switchOff {
+					f()
+				}
+			}
+			c04do(tl, call)
+			c04afterCheck = nil
+			for _, f := range switchOn {
+				f()
+			}
+			call.done = true
+		}
+	}
 
 	// ---- drain: stop buffered syncers, final sync ----
 	for _, br := range branches {
